@@ -10,6 +10,7 @@ import SmppVerif.Model.Receipt
 import SmppVerif.Model.Split
 import SmppVerif.Model.Policy
 import SmppVerif.Model.DriverCorr
+import SmppVerif.Model.DriverPdu
 
 namespace SmppVerif.Driver
 open SmppVerif SmppVerif.Wire
@@ -194,7 +195,10 @@ def stepS (st : DState) (line : String) : DState × String :=
   let ws := (line.trimAscii.toString.splitOn " ").filter (· ≠ "")
   match DriverCorr.step st.corr ws with
   | some (c, out) => ({ st with corr := c }, out)
-  | none => (st, step line)
+  | none =>
+    match DriverPdu.step ws with
+    | some out => (st, out)
+    | none => (st, step line)
 
 partial def loop (h : IO.FS.Stream) (out : IO.FS.Stream) (st : DState) : IO Unit := do
   let line ← h.getLine
